@@ -52,6 +52,7 @@ D3 == "Dev_C19_UnlinkedDirResurrected"
 D4 == "Dev_C19_MetaRevertedByOpenFd"
 D5 == "Dev_C19_FlushForgetsOpenFile"
 D6 == "Dev_C19_UnflushedWriteVisible"
+D7 == "Dev_C19_InlineLeafExtendCorrupts"
 
 (* ---- paths and trees ---------------------------------------------------------------- *)
 Parent(p)      == SubSeq(p, 1, Len(p) - 1)
@@ -61,8 +62,10 @@ IsPrefix(p, q) == Len(p) <= Len(q) /\ SubSeq(q, 1, Len(p)) = p
 Rel(q, p)      == SubSeq(q, Len(p) + 1, Len(q))
 Max(a, b)      == IF a > b THEN a ELSE b
 
-DirNode(m, t)     == [k |-> "d", c |-> <<>>, m |-> m, t |-> t]
-FileNode(c, m, t) == [k |-> "f", c |-> c, m |-> m, t |-> t]
+\* w ("wrapped") is bookkeeping for finding D7 only: the file got its first metadata while it had content
+\* (with CIDv1/raw leaves MFS then turns the raw block into a dag-pb leaf with inline data); not projected
+DirNode(m, t)     == [k |-> "d", c |-> <<>>, m |-> m, t |-> t, w |-> FALSE]
+FileNode(c, m, t) == [k |-> "f", c |-> c, m |-> m, t |-> t, w |-> FALSE]
 
 Ex(f, p)  == p \in DOMAIN f
 IsD(f, p) == Ex(f, p) /\ f[p].k = "d"
@@ -85,7 +88,7 @@ DirRes(p)       == IF IsD(fs, p) THEN "ok" ELSE IF IsF(fs, p) THEN "err" ELSE Wa
 (* ---- descriptors -------------------------------------------------------------------- *)
 NoFd == [open |-> FALSE, p |-> <<>>, att |-> FALSE, view |-> <<>>, pos |-> 0, st |-> "closed",
          sync |-> FALSE, bump |-> FALSE, m0 |-> 0, t0 |-> 0,
-         ghost |-> FALSE, gat |-> <<>>, gsub |-> <<>>, d5 |-> FALSE]
+         ghost |-> FALSE, gat |-> <<>>, gsub |-> <<>>, d5 |-> FALSE, inl |-> FALSE]
 Fds     == 1..NFd
 AttAt(p)    == {i \in Fds : fds[i].open /\ fds[i].att /\ fds[i].p = p}
 AttBelow(p) == {i \in Fds : fds[i].open /\ fds[i].att /\ IsPrefix(p, fds[i].p) /\ fds[i].p # p}
@@ -101,8 +104,10 @@ OkRes == {"ok", "d", "f"}
 Ret(op, a, res, names, fin, alts) ==
     last' = [op |-> op, a |-> a, res |-> res, names |-> names, fin |-> fin, alts |-> alts]
 \* as-built alternative: what MFS shows afterwards and what a flush of the root persists
-AltD(dev, tree, dag) == [dev |-> dev, res |-> "ok", tree |-> Proj(tree), dag |-> Proj(dag)]
+\* (prob # "": instead of a tree, MFS shows an inconsistent file: the named API results contradict each other)
+AltD(dev, tree, dag) == [dev |-> dev, res |-> "ok", tree |-> Proj(tree), dag |-> Proj(dag), prob |-> ""]
 Alt(dev, tree)       == AltD(dev, tree, tree)
+AltP(dev, prob)      == [dev |-> dev, res |-> "ok", tree |-> {}, dag |-> {}, prob |-> prob]
 
 \* T = open deviations whose region this operation enters.  While inside a region only
 \* descriptor operations and read-only calls are generated, until all descriptors are closed
@@ -111,8 +116,9 @@ QuietOps == {"Write", "WriteAt", "Truncate", "FdFlush", "Close", "Lookup", "List
 Gate(op, T0) ==
     LET T == T0 \cap OpenDevs IN
     /\ region = "none" \/ op \in QuietOps
+    /\ region = D7 => op \notin {"Write", "WriteAt", "Truncate"}      \* one modification, then the flush
     /\ T = {} \/ (region = "none" /\ Cardinality(T) = 1 /\ T \cap Avoid = {})
-    /\ region' = IF T \cap {D3, D4, D5, D6} # {} THEN CHOOSE x \in T : TRUE
+    /\ region' = IF T \cap {D3, D4, D5, D6, D7} # {} THEN CHOOSE x \in T : TRUE
                  ELSE IF \A i \in Fds : ~fds'[i].open THEN "none" ELSE region
 
 (* ---- directory operations ------------------------------------------------------------ *)
@@ -207,7 +213,9 @@ Mv(src, dst, ts) ==
 SetMeta(op, p, m, t) ==
     LET res == WalkRes(p)
     IN /\ fs' = IF res = "ok" THEN [fs EXCEPT ![p].m = IF op = "Chmod" THEN m ELSE @,
-                                               ![p].t = IF op = "Touch" THEN t ELSE @] ELSE fs
+                                               ![p].t = IF op = "Touch" THEN t ELSE @,
+                                               ![p].w = @ \/ (fs[p].k = "f" /\ fs[p].m = 0 /\ fs[p].t = 0 /\ Len(fs[p].c) >= 1)]
+                ELSE fs
        /\ UNCHANGED fds
        /\ Gate(op, IF res = "ok" /\ AttAt(p) # {} THEN {D4} ELSE {})
        /\ Ret(op, [A0 EXCEPT !.p = p, !.m = IF op = "Chmod" THEN m ELSE t], res, {}, <<>>, <<>>)
@@ -239,20 +247,25 @@ Open(i, p, sync) ==
        /\ UNCHANGED fs
        /\ fds' = IF res = "ok"
                  THEN [fds EXCEPT ![i] = [NoFd EXCEPT !.open = TRUE, !.p = p, !.att = TRUE, !.view = fs[p].c,
-                                           !.st = "created", !.sync = sync, !.m0 = fs[p].m, !.t0 = fs[p].t]]
+                                           !.st = "created", !.sync = sync, !.m0 = fs[p].m, !.t0 = fs[p].t,
+                                           !.inl = fs[p].w /\ Len(fs[p].c) >= 1]]
                  ELSE fds
        /\ Gate("Open", {})
        /\ Ret("Open", [A0 EXCEPT !.p = p, !.fd = i, !.fl = sync], res, {}, <<>>, <<>>)
 
+\* D7: the file is a dag-pb leaf with inline data (see w); a modification that DagModifier has to append
+\* to it leaves inline data AND links behind: Size() and the readable bytes disagree after the flush
+Inline(i) == fds[i].inl       \* shape of the node the descriptor was opened on (attached or not)
 Modify(op, i, a, view, pos, bump, T, alts) ==
     /\ fds[i].open /\ Len(view) <= MaxLen
     /\ UNCHANGED fs
     /\ fds' = [fds EXCEPT ![i].view = view, ![i].pos = pos, ![i].st = "dirty", ![i].bump = @ \/ bump]
-    /\ Gate(op, T)
+    /\ Gate(op, T \cup (IF Inline(i) THEN {D7} ELSE {}))
     /\ Ret(op, [a EXCEPT !.fd = i], "ok", {}, <<>>, alts)
 Write(i, d)        == Modify("Write", i, [A0 EXCEPT !.d = d], Over(fds[i].view, fds[i].pos, d), fds[i].pos + Len(d), TRUE, {}, <<>>)
-\* WriteAt over still-buffered data is DagModifier's business (property C10): only issued on a clean buffer
-WriteAt(i, d, off) == fds[i].st # "dirty" /\ Modify("WriteAt", i, [A0 EXCEPT !.d = d, !.n = off], Over(fds[i].view, off, d), off + Len(d), TRUE, {}, <<>>)
+\* WriteAt over still-buffered data or beyond the end is DagModifier's business (property C10): only issued
+\* on a clean buffer and inside (or right at the end of) the file
+WriteAt(i, d, off) == fds[i].st # "dirty" /\ off <= Len(fds[i].view) /\ Modify("WriteAt", i, [A0 EXCEPT !.d = d, !.n = off], Over(fds[i].view, off, d), off + Len(d), TRUE, {}, <<>>)
 \* Truncate makes the DagModifier write its buffer into the DAG.  D6: bytes of the descriptor's
 \* view that overwrite bytes the tree currently shows become visible there without any flush.
 Truncate(i, n) ==
@@ -267,19 +280,20 @@ Truncate(i, n) ==
 Flushed(i) ==
     LET fd == fds[i]
     IN IF fd.att /\ fd.st \in {"created", "dirty"}
-       THEN [fs EXCEPT ![fd.p] = FileNode(fd.view, @.m, Bumped(@.t, fd.bump))]
+       THEN [fs EXCEPT ![fd.p].c = fd.view, ![fd.p].t = Bumped(@, fd.bump)]
        ELSE fs
 FlushAlts(i, propagates) ==
     LET fd   == fds[i]
         acts == fd.st \in {"created", "dirty"}
         a4 == IF acts /\ fd.att /\ (fd.m0 # fs[fd.p].m \/ fd.t0 # fs[fd.p].t)
-              THEN <<Alt(D4, [fs EXCEPT ![fd.p] = FileNode(fd.view, fd.m0, Bumped(fd.t0, fd.bump))])>> ELSE <<>>
+              THEN <<Alt(D4, [fs EXCEPT ![fd.p].c = fd.view, ![fd.p].m = fd.m0, ![fd.p].t = Bumped(fd.t0, fd.bump)])>> ELSE <<>>
         a5 == IF acts /\ fd.att /\ fd.d5 THEN <<Alt(D5, fs)>> ELSE <<>>
         r  == Rel(fd.p, fd.gat)
         a3 == IF acts /\ fd.ghost /\ propagates
-              THEN <<Alt(D3, Graft(fs, fd.gat, [fd.gsub EXCEPT ![r] = FileNode(fd.view, @.m, Bumped(@.t, fd.bump))]))>>
+              THEN <<Alt(D3, Graft(fs, fd.gat, [fd.gsub EXCEPT ![r].c = fd.view, ![r].t = Bumped(@, fd.bump)]))>>
               ELSE <<>>
-    IN a4 \o a5 \o a3
+        a7 == IF acts /\ Inline(i) /\ fd.st = "dirty" THEN <<AltP(D7, "Size(")>> ELSE <<>>
+    IN a4 \o a5 \o a3 \o a7
 FdFlush(i) ==
     /\ fds[i].open
     /\ fs' = Flushed(i)
